@@ -21,6 +21,19 @@ def main():
                 continue
             open(p, "w").write(s.replace(m["old"], m["new"], 1))
             env = dict(os.environ, PYVC_REPO=d)
+            if m.get("prop"):
+                r = subprocess.run(["./check", m["prop"]], capture_output=True, text=True, env=env,
+                                   cwd=os.path.dirname(os.path.dirname(os.path.abspath(__file__))))
+                viol = [l.strip() for l in r.stdout.splitlines() if l.startswith("VIOLATION")]
+                und = [l.strip() for l in r.stdout.splitlines() if l.startswith(("UNDECIDED", "CHECKER-ERROR"))]
+                got = "caught" if r.returncode == 1 and viol else ("green" if r.returncode == 0 else f"rc{r.returncode}")
+                expect = m.get("expect", "caught")
+                if expect == "undecided":
+                    expect = "caught"  # through the whole pipeline the bounded stand-in must decide
+                flag = "OK " if got == expect else "!! "
+                print(f"{flag}{m['name']}: expect={expect} got={got} rc={r.returncode} {viol[:1]} {und[:1]}")
+                shutil.rmtree(d)
+                continue
             r = subprocess.run(["python3-vt", "-m", "pyvc.cli", m["pattern"]], capture_output=True, text=True, env=env,
                                cwd=os.path.dirname(os.path.dirname(os.path.abspath(__file__))))
             bad = [l.strip() for l in r.stdout.splitlines() if l.strip().startswith(("refuted", "unknown"))]
